@@ -95,6 +95,76 @@ CHECKS = {
              "C08). Chunk-cut transcripts and larger layouts are not decided.",
         design="DESIGN.md section 4, C06",
     ),
+    "C08": dict(
+        technique="interpretation of dictionary / data-model / pickle round trips and of the library's own digest_object "
+                  "under permuted insertion orders + structural to_dict-key vs model-field agreement",
+        text="to_dict->from_dict, schema load (modelled: unknown key rejected, enums by name, nested models)->Model.to_<object>, "
+             "and __getstate__->__setstate__ are interpreted for every interval/collection class on no parent, chromosome "
+             "and chunk (also with completely_within set); the dictionary form must be reproduced. digest_object is "
+             "interpreted: guid invariant under every rotation/reversal of qualifier key and value insertion order (incl. "
+             "case-twin keys), sensitive to coordinates, strand, frames, qualifier values. Structural: to_dict keys are "
+             "model fields and every model field is forwarded.",
+        note="Trusted: CPython ast, sa/interp.py (hashlib/uuid run natively), the marshmallow-dataclass load model stated "
+             "above. Hash-seed independence follows because the interpreter rejects str() of a multi-element set. One known "
+             "finding (VariantInterval 'guid' key).",
+        design="DESIGN.md section 4, C08",
+    ),
+    "C09": dict(
+        technique="interpretation of position and identifier queries against a coordinate oracle over cut points at member "
+                  "bounds and bin boundaries + structural interface completeness of the child union",
+        text="query_by_position (all flag combinations; ranges at member bounds, 0, collection bounds, across 128 kb bin "
+             "boundaries; collections with and without sequence) and all GUID / identifier queries (all small subsets) are "
+             "interpreted and compared with a coordinate oracle: exact membership, documented bounds, retained member "
+             "dictionaries, member sequences restricted to the new bounds, InvalidQueryError for invalid ranges. Attribute "
+             "reads on union members are checked against every member class.",
+        note="Trusted: CPython ast, sa/interp.py. The cgranges path is not taken (not installed).",
+        design="DESIGN.md section 4, C09",
+    ),
+    "C10": dict(
+        technique="interpretation of operation histories on separately built twins (answers and recursive operand state "
+                  "compared) + structural memoisation-key and identity-comparison rules",
+        text="For locations, sequences, transcripts, CDSs, features, genes, feature collections and annotation collections "
+             "(chromosome and chunk parents) every public zero-argument accessor and a list of binary/export operations are "
+             "interpreted in forward and reverse order; every answer (value and type) must equal a fresh twin's and the "
+             "recursive non-memo state of operands and arguments must be unchanged. Structural: every constructor field of "
+             "the lru_cache'd Parent is hashed; key classes hash what they compare; no identity comparison on cached objects.",
+        note="Trusted: CPython ast, sa/interp.py (cached properties are memoised per object as methodtools does; "
+             "functools.lru_cache eviction itself is trusted). Histories are the enumerated orders, not all permutations.",
+        design="DESIGN.md section 4, C10",
+    ),
+    "C11": dict(
+        technique="interpretation of the GFF3 writers; the produced text is decoded by an independent reader in the checker "
+                  "and compared with an oracle built from the constructor arguments; constant folding of the escape tables",
+        text="AnnotationCollection.to_gff / collection_to_gff3 / GFFRow / GFFAttributes are interpreted for generated "
+             "collections with special characters in keys and values, on chromosome and chunk, both modes: nine columns, "
+             "1-based inclusive coordinates of the source blocks, strand, phase only on CDS rows and frame-derived, unique "
+             "IDs, Parent defined earlier, rows ordered by start, exact attribute sets per row, reserved keys refused or "
+             "dropped, repeatable export, header/FASTA layout. Escape tables decided by constant folding.",
+        note="Trusted: CPython ast, sa/interp.py (re runs natively), the decoder in sa/rules/c11.py. The re-parse leg through "
+             "gffutils is not decided (third-party reader).",
+        design="DESIGN.md section 4, C11",
+    ),
+    "C14": dict(
+        technique="interpretation of to_bed12 and BED12.__str__; text decoded by an independent 12-column reader",
+        text="For every enumerated transcript (coding placements, non-coding) and feature, both strands, chromosome and chunk "
+             "parents and both coordinate modes the BED12 text is produced by interpretation and decoded: format invariants "
+             "and decoded blocks / strand / name / CDS bounds must equal the exported ones in the mode's coordinates.",
+        note="Trusted: CPython ast, sa/interp.py, decoder in sa/rules/c14.py.",
+        design="DESIGN.md section 4, C14",
+    ),
+    "C16": dict(
+        technique="interpretation of bins() on bands around every bin boundary against a geometric model + structural "
+                  "call-site convention, non-interference and constant rules",
+        text="bins() is interpreted for every (start,end) pair of band points around each boundary of each level, both "
+             "formats and modes; the single bin must be the smallest containing bin and every query's bin set must contain "
+             "the assigned bin of every contained or overlapping interval (checked exhaustively over the band pairs). "
+             "Structural rules extend this to all coordinates: same fmt and own chromosome (start,end) at every stored-bin "
+             "site, one=False at the query site, start/stop arithmetic independent of `one`, strict-mode-only pre-filter, "
+             "constant relations; chunk-built twins with large offsets store the chromosome bin.",
+        note="Trusted: CPython ast, sa/interp.py, monotonicity of x -> (x-c)>>k. Identity with kent's numbering is not "
+             "decided (gffutils offsets, inclusive stop).",
+        design="DESIGN.md section 4, C16",
+    ),
     "C15": dict(
         technique="constant folding of the tables from the AST + abstract interpretation of the table-driven "
                   "functions over their complete finite domains + mod-3 affine normal form for CDSFrame.shift",
